@@ -1,4 +1,11 @@
-(* placeholder so that the pipeline can be exercised; replaced by the real theorems *)
-From SV Require Import Names Rep.
-Theorem C11_placeholder : True. Proof. exact I. Qed.
-Print Assumptions C11_placeholder.
+(* C11 -- flagComplex is the clique complex of the 1-skeleton.
+   Theorem statements only; proofs (by computation in the kernel) in Sweeps.v.
+   BOUNDED: every complex on at most 4 labelled points (not only graphs): the family of the flag
+   complex is exactly the clique family, it contains the source with its names, it is well formed,
+   and taking the flag complex again adds nothing.  growFlagComplex = rebuild: tested only. *)
+From Coq Require Import String ZArith Bool Arith List.
+From SV Require Import Names Rep Complex Homology Filtration Gen World Small Sweeps.
+
+Theorem C11_flag_is_clique_complex_upto4_partial : forall c, In c complexes4 -> chk_flag (build c) = true.
+Proof. exact flag_upto4. Qed.
+Print Assumptions C11_flag_is_clique_complex_upto4_partial.
